@@ -34,8 +34,10 @@ def main():
             res["n_values"] = int(len(np.unique(X)))
             res["model_seconds"] = round(time.time() - t0, 2)
         else:
-            res["ys"] = Y[idx].tolist()
-            res["xs"] = X[idx].tolist()
+            sidx = idx if r < 1 else nm.sampled_indices(X, r)[1]     # rows of the Coq function sampled_indices (C04_check)
+            res["sampled"] = int(len(sidx))
+            res["ys"] = Y[sidx].tolist()
+            res["xs"] = X[sidx].tolist()
         out.append(res)
     print("@@RESULT " + json.dumps({"results": out}))
 
